@@ -207,6 +207,35 @@ fn push_opt(o: &mut Vec<(String, J)>, k: &str, v: &Option<String>) {
     }
 }
 
+/// next value of the xorshift stream (0 stays 0: seed 0 = plain rendering)
+fn next_of(seed: &mut u64) -> u64 {
+    if *seed == 0 {
+        return 0;
+    }
+    let mut x = *seed;
+    x ^= x << 13;
+    x ^= x >> 7;
+    x ^= x << 17;
+    *seed = x;
+    x >> 33
+}
+
+/// Extension members for the small objects that have no typed 'extra' map in the client (url, daystart, and the urls /
+/// packages / actions wrappers): the protocol allows them (`codebasediff` is a published url attribute), the client must
+/// accept the document and decode everything else unchanged.
+fn leaf_extension(o: &mut Vec<(String, J)>, seed: &mut u64, names: &[&str]) {
+    let r = next_of(seed);
+    if r % 4 == 1 {
+        let name = names[(r as usize / 4) % names.len()];
+        let v = match (r / 64) % 3 {
+            0 => J::S("x".into()),
+            1 => J::U(7),
+            _ => J::O(vec![]),
+        };
+        o.push((name.to_string(), v));
+    }
+}
+
 /// deterministic shuffle of object keys driven by a seed (Fisher-Yates over an xorshift stream)
 fn shuffle(o: &mut Vec<(String, J)>, seed: &mut u64) {
     if *seed == 0 {
@@ -239,8 +268,18 @@ pub fn render_uc(u: &XUc, seed: &mut u64) -> J {
     let mut o = vec![("status".to_string(), J::S(u.status.clone()))];
     push_opt(&mut o, "info", &u.info);
     if let Some(urls) = &u.urls {
-        let list = urls.iter().map(|c| J::O(vec![("codebase".into(), J::S(c.clone()))])).collect();
-        o.push(("urls".into(), J::O(vec![("url".into(), J::A(list))])));
+        let list = urls
+            .iter()
+            .map(|c| {
+                let mut u = vec![("codebase".to_string(), J::S(c.clone()))];
+                leaf_extension(&mut u, seed, &["codebasediff", "_ext", "region"]);
+                shuffle(&mut u, seed);
+                J::O(u)
+            })
+            .collect();
+        let mut w = vec![("url".to_string(), J::A(list))];
+        leaf_extension(&mut w, seed, &["_ext", "count"]);
+        o.push(("urls".into(), J::O(w)));
     }
     if let Some(m) = &u.manifest {
         let actions = m
@@ -301,6 +340,7 @@ pub fn render(x: &XResp, mut seed: u64) -> J {
         if let Some(s) = s {
             o.push(("elapsed_seconds".to_string(), J::U(s as u64)));
         }
+        leaf_extension(&mut o, seed, &["_tz", "elapsed_weeks", "_ext"]);
         shuffle(&mut o, seed);
         r.push(("daystart".into(), J::O(o)));
     }
